@@ -245,6 +245,15 @@ fn probe<L: LayoutTrait>(h: &Honest, rng: &mut Rng, rep: &mut Report, thorough: 
         p.log_n_steps = Felt::from(v);
         push(&mut edits, format!("log_n_steps = {v}"), p, t);
     }
+    // exponent aliases: 2^log_n_steps is unchanged when the exponent moves by a multiple of the order of 2
+    for m in 1u8..=9 {
+        let x = big(&pi0.log_n_steps) + vcommon::ord2() * BigUint::from(m);
+        if x < vcommon::prime() {
+            let mut p = clone_pi(pi0);
+            p.log_n_steps = vcommon::felt_from_big(&x);
+            push(&mut edits, format!("log_n_steps = honest + {m}*ord(2)"), p, t);
+        }
+    }
     for (mn, mx) in [(0u64, 0u64), (0, 1), (5, 5), (6, 5), (0, 0xffff), (0, 0x10000), (0xffff, 0x10000), (0xfffe, 0xffff), (0x10000, 0x10001)] {
         let mut p = clone_pi(pi0);
         p.range_check_min = Felt::from(mn);
